@@ -61,63 +61,125 @@ typedef struct {
 vp_aioq   g_recvq;
 nni_list *g_recvq_addr;
 
-/* queues of frames (rxq: received data frames of the message being
- * reassembled, txq: frames waiting for transmission): all members, in order,
- * at most WSF_K of them (bound of the units that touch them). */
+/* Mutable ghosts are grouped into a few structs, one per concern, so that an
+ * assigns clause names a handful of objects instead of thirty scalars (every
+ * write of the code is checked against every assigns target).  The old scalar
+ * names are kept as field aliases. */
+
+/* rxq (received data frames of the message being reassembled): all members,
+ * in order, at most WSF_K of them (bound of the units that touch them). */
 struct ws_frame;
 typedef struct {
 	size_t           n;
 	struct ws_frame *item[WSF_K];
 } vp_frameq;
-vp_frameq g_rxq, g_txq;
+vp_frameq g_rxq;
 nni_list *g_rxq_addr, *g_txq_addr;
 
-/* HTTP connection underneath (nni_http_read_full / write_full / conn_close) */
-size_t    g_rd_calls, g_wr_calls, g_hclose_calls;
-nng_http *g_io_http; /* connection of the last read/write/close */
-nni_aio  *g_rd_aio, *g_wr_aio;
+/* txq (frames waiting for transmission): count + the first member + the one
+ * behind it; the code under contract only looks at the first member, puts
+ * control frames in front and data frames at the end. */
+typedef struct {
+	size_t           n;
+	struct ws_frame *head;
+	struct ws_frame *next; /* the one behind the head (n >= 2), NULL = unknown */
+} vp_txq;
+
+/* transmit side: HTTP connection writes/close, aio run-time, the transmit queue */
+struct {
+	size_t    wr_calls, hclose_calls;
+	nng_http *wr_http; /* connection of the last write/close */
+	nni_aio  *wr_aio;
+	size_t    aio_close_calls, aio_reset_calls, start_calls;
+	vp_txq    txq;
+} g_tx;
+#define g_wr_calls g_tx.wr_calls
+#define g_hclose_calls g_tx.hclose_calls
+#define g_wr_http g_tx.wr_http
+#define g_wr_aio g_tx.wr_aio
+#define g_aio_close_calls g_tx.aio_close_calls
+#define g_aio_reset_calls g_tx.aio_reset_calls
+#define g_start_calls g_tx.start_calls
+#define g_txq g_tx.txq
+bool g_aio_start_ok; /* answer of nni_aio_start (never written) */
+
+/* receive side: HTTP connection reads */
+struct {
+	size_t    rd_calls;
+	nng_http *rd_http;
+	nni_aio  *rd_aio;
+} g_rd;
+#define g_rd_calls g_rd.rd_calls
+#define g_rd_http g_rd.rd_http
+#define g_rd_aio g_rd.rd_aio
 
 /* completions of aios */
-size_t   g_fin_calls;
-nni_aio *g_fin_last;
-int      g_fin_last_rv;
-size_t   g_fin_last_count;
-
-/* aio run-time */
-size_t   g_aio_close_calls, g_aio_reset_calls, g_start_calls;
-bool     g_aio_start_ok; /* answer of nni_aio_start */
+struct {
+	size_t   fin_calls;
+	nni_aio *fin_last;
+	int      fin_last_rv;
+	size_t   fin_last_count;
+} g_fn;
+#define g_fin_calls g_fn.fin_calls
+#define g_fin_last g_fn.fin_last
+#define g_fin_last_rv g_fn.fin_last_rv
+#define g_fin_last_count g_fn.fin_last_count
 
 /* nni_random */
-uint32_t g_rand_last; /* value handed out by the last nni_random() */
-size_t   g_rand_calls;
+struct {
+	uint32_t rand_last; /* value handed out by the last nni_random() */
+	size_t   rand_calls;
+} g_rn;
+#define g_rand_last g_rn.rand_last
+#define g_rand_calls g_rn.rand_calls
 
 /* messages */
-size_t   g_msg_alloc_calls;
-size_t   g_msg_alloc_sz;
-nni_msg *g_msg_last; /* last message allocated */
+struct {
+	size_t   msg_alloc_calls;
+	size_t   msg_alloc_sz;
+	nni_msg *msg_last; /* last message allocated */
+} g_ms;
+#define g_msg_alloc_calls g_ms.msg_alloc_calls
+#define g_msg_alloc_sz g_ms.msg_alloc_sz
+#define g_msg_last g_ms.msg_last
 
 /* ghost statements woven at function entry (spec.json "weave"/"entry"):
  * "fail the connection" = ws_close is called; record how often and with
  * which status code; control frame construction: how often, last opcode and
  * payload length. */
-size_t   g_close_calls;
-uint16_t g_close_code;
-size_t   g_ctl_calls;
-uint8_t  g_ctl_op;
-size_t   g_ctl_len;
+struct {
+	size_t   close_calls;
+	uint16_t close_code;
+	size_t   ctl_calls;
+	uint8_t  ctl_op;
+	size_t   ctl_len;
+} g_cl;
+#define g_close_calls g_cl.close_calls
+#define g_close_code g_cl.close_code
+#define g_ctl_calls g_cl.ctl_calls
+#define g_ctl_op g_cl.ctl_op
+#define g_ctl_len g_cl.ctl_len
 /* hand-off of received data frames to the reassembly step (ws_read_finish):
  * number of calls and a snapshot of what it was given: the frame queue, the
  * "message unfinished" flag, and -- when the last queued frame is the frame
  * under test g_the_frame -- its length, payload pointer and payload byte g_k.
  * (The reassembly step may consume and release frames, so the caller's
  * postcondition speaks about this snapshot.) */
-size_t           g_finish_calls;
-vp_frameq        g_fin_rxq;
-bool             g_fin_inmsg;
+struct {
+	size_t    finish_calls;
+	vp_frameq fin_rxq;
+	bool      fin_inmsg;
+	size_t    fin_flen;
+	uint8_t  *fin_fbuf;
+	uint8_t   fin_fb;
+} g_sn;
+#define g_finish_calls g_sn.finish_calls
+#define g_fin_rxq g_sn.fin_rxq
+#define g_fin_inmsg g_sn.fin_inmsg
+#define g_fin_flen g_sn.fin_flen
+#define g_fin_fbuf g_sn.fin_fbuf
+#define g_fin_fb g_sn.fin_fb
 struct ws_frame *g_the_frame;
-size_t           g_fin_flen;
-uint8_t         *g_fin_fbuf;
-uint8_t          g_fin_fb;
 #define VP_SNAP_FINISH(ws)                                                    \
 	do {                                                                      \
 		g_finish_calls++;                                                     \
